@@ -14,7 +14,7 @@ RULE = (
 )
 ASSUMPTIONS = [
     'generated terms use every operator/function according to hplverif/typesig.py; quantifiers range over primitive-element collections only (the code fixes the variable to primitive types)',
-    'sibling quantifiers that reuse a variable name at different element types are the listed known finding F12 (generated as a labelled family)',
+    'sibling quantifiers that reuse a variable name at different element types (finding F12, repaired) are generated freely and as a labelled family',
 ]
 
 
